@@ -109,14 +109,16 @@ func storageKey(t types.Type) string {
 	if b, ok := under(t).(*types.Basic); ok {
 		return typeKey(b)
 	}
+	// storage is separated by static type: Go's type system keeps a []*A and a []*B apart
 	switch u := under(t).(type) {
-	case *types.Pointer, *types.Map, *types.Chan, *types.Signature:
-		_ = u
-		return "ref"
+	case *types.Pointer:
+		return "ref:" + typeKey(u.Elem())
+	case *types.Map, *types.Chan, *types.Signature:
+		return "ref:" + typeKey(types.Unalias(t))
 	case *types.Interface:
-		return "iface"
+		return "iface:" + typeKey(t)
 	case *types.Slice:
-		return "slice"
+		return "slice:" + typeKey(u.Elem())
 	}
 	return typeKey(t)
 }
